@@ -171,9 +171,9 @@ static void check13(const Bytes &doc, bool arr, unsigned depth, Src &s, const st
         // block boundaries: every multiple of 16384 characters after the start of each of the first structural characters (+-1)
         {
             size_t seenp = 0;
-            for (size_t i = 0; i < full.text.size() && seenp < 6; i++) {
+            for (size_t i = 0; i < full.text.size() && seenp < 8; i++) {
                 char ch = full.text[i];
-                if (ch == 'x' || ch == '"' || ch == '[' || ch == ':') {
+                if (ch == 'x' || ch == '"' || ch == '[' || ch == ':' || ch == ',') {
                     seenp++;
                     for (size_t m = 16384; i + 1 + m < need + 2; m += 16384) { blockcaps.push_back(i + m); blockcaps.push_back(i + 1 + m); blockcaps.push_back(i + 2 + m); }
                 }
@@ -189,6 +189,18 @@ static void check13(const Bytes &doc, bool arr, unsigned depth, Src &s, const st
         caps = keep;
     }
     caps.insert(caps.end(), blockcaps.begin(), blockcaps.end());
+    // sufficient capacities that leave exactly 2^8, 2^15 or 2^16 (+-1) bytes of room at one of the first structural characters
+    {
+        size_t seenp = 0;
+        for (size_t i = 0; i < full.text.size() && seenp < 4; i++) {
+            char ch = full.text[i];
+            if (ch == ',' || ch == '[' || ch == ':' || ch == 'x') {
+                seenp++;
+                static const size_t rooms[] = {256, 32768, 65536, 65537};
+                for (size_t rm : rooms) if (i + rm >= need) caps.push_back(i + rm);
+            }
+        }
+    }
     for (size_t c : caps) {
         ToStr r = to_string_cap(pb.p, c, false);
         st.count("calls");
